@@ -3,7 +3,7 @@
 From Coq Require Extraction.
 From Coq Require Import ExtrOcamlBasic.
 From Coq Require Import List NArith ZArith.
-From YV Require Import Lib.Bytes Ids.Ranges Codec.Varint Codec.AnyCodec Codec.IdSetCodec Codec.UpdateV1 Codec.Messages Codec.Cells Crdt.Doc Crdt.Local Crdt.Events Crdt.Undo OpSet.Awareness.
+From YV Require Import Lib.Bytes Ids.Ranges Codec.Varint Codec.AnyCodec Codec.IdSetCodec Codec.UpdateV1 Codec.V2Cols Codec.UpdateV2 Codec.Messages Codec.Cells Crdt.Doc Crdt.Local Crdt.Events Crdt.Undo OpSet.Awareness.
 Extraction Language OCaml.
 Extraction "model.ml"
   N.add N.mul N.sub N.div_eucl N.eqb N.ltb N.leb N.of_nat N.to_nat
@@ -13,6 +13,7 @@ Extraction "model.ml"
   read_var_u32 read_var_u64 read_var_i64 read_signed write_var_u32 write_var_u64 write_var_i64 read_buf write_buf
   decode_any encode_any decode_idset_v1 encode_idset_v1 decode_sv_v1 encode_sv_v1 decode_snapshot_v1 encode_snapshot_v1
   decode_update_v1 encode_update_v1 units_of_update
+  decode_update_v2 encode_update_v2 idiff_encode idiff_decode uint_encode uint_decode rle_encode rle_decode str_encode str_decode
   apply_update set_local remove_state aget
   local_op local_insert local_delete contents sticky_at sticky_offset quoted split_live split_gap live
   decode_sticky encode_sticky decode_awareness encode_awareness decode_message encode_message
